@@ -41,6 +41,8 @@ type Solver struct {
 	sb    strings.Builder
 	errs  []string
 	kind  string
+	dead  bool
+	timeoutMs int
 }
 
 const smtPrelude = `(set-option :print-success false)
@@ -84,7 +86,7 @@ func NewSolver(kind string, timeoutMs int) (*Solver, error) {
 	if err := cmd.Start(); err != nil {
 		return nil, err
 	}
-	s := &Solver{cmd: cmd, in: in, out: bufio.NewReaderSize(out, 1<<16), decl: map[string]int{}, kind: kind}
+	s := &Solver{cmd: cmd, in: in, out: bufio.NewReaderSize(out, 1<<16), decl: map[string]int{}, kind: kind, timeoutMs: timeoutMs}
 	if dir := os.Getenv("GOSYM_SOLVERLOG"); dir != "" {
 		f, _ := os.Create(fmt.Sprintf("%s/solver_%d.smt2", dir, cmd.Process.Pid))
 		s.log = f
@@ -229,7 +231,21 @@ func (s *Solver) Check(extra *Term, vars []*Term) (SatResult, []uint64) {
 		s.send("(assert " + txt + ")\n")
 	}
 	s.send("(check-sat)\n")
+	// watchdog: z3's soft timeout is not always honoured; a query that does
+	// not answer in time kills the solver (the path ends inconclusive and the
+	// worker starts a fresh solver)
+	killed := false
+	wd := time.AfterFunc(time.Duration(s.timeoutMs+15000)*time.Millisecond, func() {
+		killed = true
+		s.cmd.Process.Kill()
+	})
 	res := s.readResult()
+	wd.Stop()
+	if killed {
+		s.dead = true
+		s.errs = append(s.errs, "solver watchdog: query exceeded the hard time limit")
+		res = Unknown
+	}
 	var model []uint64
 	switch res {
 	case Sat:
@@ -255,8 +271,13 @@ func (s *Solver) getValues(vars []*Term, names []string) []uint64 {
 			j = len(names)
 		}
 		s.send("(get-value (" + strings.Join(names[i:j], " ") + "))\n")
+		wd := time.AfterFunc(60*time.Second, func() { s.dead = true; s.cmd.Process.Kill() })
 		txt := s.readSexp()
+		wd.Stop()
 		vals := parseValues(txt)
+		if strings.HasPrefix(strings.TrimSpace(txt), "(error") {
+			vals = nil
+		}
 		if len(vals) != j-i {
 			s.errs = append(s.errs, "get-value: cannot parse "+txt)
 			s.stats.Errors++
@@ -274,6 +295,7 @@ func (s *Solver) readSexp() string {
 	var sb strings.Builder
 	depth := 0
 	started := false
+	inStr := false
 	for {
 		b, err := s.out.ReadByte()
 		if err != nil {
@@ -282,6 +304,13 @@ func (s *Solver) readSexp() string {
 			return sb.String()
 		}
 		sb.WriteByte(b)
+		if b == '"' {
+			inStr = !inStr
+			continue
+		}
+		if inStr {
+			continue
+		}
 		if b == '(' {
 			depth++
 			started = true
